@@ -404,28 +404,28 @@ KNOWN_CLASSES = {"parafac2_svd_init_zero_budget": _kf_parafac2_svd_zero_budget}
 def subchecks(tier):
     S = []
     # multiplicative CP
-    S.append(SubCheck("nncp_mu/random_user", _mu_case(("random", "user")), o_mu, quick=150, thorough=1500, discard_exc=LIN))
-    S.append(SubCheck("nncp_mu/svd", _mu_case(("svd",)), o_mu, quick=150, thorough=1500, discard_exc=LIN))
+    S.append(SubCheck("nncp_mu/random_user", _mu_case(("random", "user")), o_mu, quick=300, thorough=2000, discard_exc=LIN))
+    S.append(SubCheck("nncp_mu/svd", _mu_case(("svd",)), o_mu, quick=300, thorough=2000, discard_exc=LIN))
     # HALS CP
-    S.append(SubCheck("nncp_hals/random_user/all", _hals_case(("random", "user"), "all"), o_hals, quick=100, thorough=1000, discard_exc=LIN))
-    S.append(SubCheck("nncp_hals/random_user/subset", _hals_case(("random", "user"), "subset"), o_hals, quick=100, thorough=1000, discard_exc=LIN))
-    S.append(SubCheck("nncp_hals/svd/all", _hals_case(("svd",), "all"), o_hals, quick=100, thorough=1000, discard_exc=LIN))
-    S.append(SubCheck("nncp_hals/svd/subset", _hals_case(("svd",), "subset"), o_hals, quick=80, thorough=800, discard_exc=LIN))
+    S.append(SubCheck("nncp_hals/random_user/all", _hals_case(("random", "user"), "all"), o_hals, quick=200, thorough=1500, discard_exc=LIN))
+    S.append(SubCheck("nncp_hals/random_user/subset", _hals_case(("random", "user"), "subset"), o_hals, quick=200, thorough=1500, discard_exc=LIN))
+    S.append(SubCheck("nncp_hals/svd/all", _hals_case(("svd",), "all"), o_hals, quick=200, thorough=1500, discard_exc=LIN))
+    S.append(SubCheck("nncp_hals/svd/subset", _hals_case(("svd",), "subset"), o_hals, quick=200, thorough=1500, discard_exc=LIN))
     # Tucker
-    S.append(SubCheck("nntucker_mu/random_user", _tucker_case(("random", "user")), o_tucker_mu, quick=120, thorough=1200, discard_exc=LIN))
-    S.append(SubCheck("nntucker_mu/svd", _tucker_case(("svd",)), o_tucker_mu, quick=120, thorough=1200, discard_exc=LIN))
+    S.append(SubCheck("nntucker_mu/random_user", _tucker_case(("random", "user")), o_tucker_mu, quick=250, thorough=2000, discard_exc=LIN))
+    S.append(SubCheck("nntucker_mu/svd", _tucker_case(("svd",)), o_tucker_mu, quick=250, thorough=2000, discard_exc=LIN))
     for alg in ("fista", "active_set"):
         # signed data can drive a whole factor to zero (N1 for fista): kept apart from non-negative data
         for dk, kinds in (("nonneg_data", NONNEG_KINDS), ("signed_data", SIGNED_KINDS)):
             S.append(SubCheck(f"nntucker_hals/{alg}/random_user/{dk}", _tucker_case(("random", "user"), True, alg, kinds),
-                              o_tucker_hals, quick=60, thorough=600, discard_exc=LIN))
+                              o_tucker_hals, quick=120, thorough=1000, discard_exc=LIN))
         S.append(SubCheck(f"nntucker_hals/{alg}/svd", _tucker_case(("svd",), True, alg), o_tucker_hals,
-                          quick=60, thorough=600, discard_exc=LIN))
+                          quick=120, thorough=1000, discard_exc=LIN))
     # constrained CP
-    S.append(SubCheck("constrained_cp/true", _constrained_case("true"), o_constrained, quick=100, thorough=1000, discard_exc=LIN))
-    S.append(SubCheck("constrained_cp/dict", _constrained_case("dict"), o_constrained, quick=100, thorough=1000, discard_exc=LIN))
+    S.append(SubCheck("constrained_cp/true", _constrained_case("true"), o_constrained, quick=250, thorough=2000, discard_exc=LIN))
+    S.append(SubCheck("constrained_cp/dict", _constrained_case("dict"), o_constrained, quick=250, thorough=2000, discard_exc=LIN))
     # PARAFAC2
-    S.append(SubCheck("parafac2/nn", _p2_case((0, 9)), o_p2, quick=120, thorough=1000, discard_exc=LIN))
-    S.append(SubCheck("parafac2/linesearch_tol0", _p2_case((7, 9), ls_tol0=True), o_p2, quick=25, thorough=100, discard_exc=LIN))
-    S.append(SubCheck("parafac2/linesearch_nn_all", _p2_case((7, 9), ls_all=True), o_p2, quick=25, thorough=100, discard_exc=LIN))
+    S.append(SubCheck("parafac2/nn", _p2_case((0, 9)), o_p2, quick=200, thorough=1500, discard_exc=LIN))
+    S.append(SubCheck("parafac2/linesearch_tol0", _p2_case((7, 9), ls_tol0=True), o_p2, quick=60, thorough=100, discard_exc=LIN))
+    S.append(SubCheck("parafac2/linesearch_nn_all", _p2_case((7, 9), ls_all=True), o_p2, quick=60, thorough=100, discard_exc=LIN))
     return S
